@@ -101,6 +101,11 @@ pub const TABLE: &[(&str, &str)] = &[
     ("Field57C", "\"/\"34x:account"),
     ("Field52D", "?[\"/\"1!a:code] [\"/\"34x:account] | 4*35x:line"),
     ("Field53D", "?[\"/\"1!a:code] [\"/\"34x:account] | 4*35x:line"),
+    ("Field52B", "?[\"/\"1!a:code] [\"/\"34x:account] | ?35x:location"),
+    ("Field53B", "?[\"/\"1!a:code] [\"/\"34x:account] | ?35x:location"),
+    ("Field54B", "?[\"/\"1!a:code] [\"/\"34x:account] | ?35x:location"),
+    ("Field55B", "?[\"/\"1!a:code] [\"/\"34x:account] | ?35x:location"),
+    ("Field57B", "?[\"/\"1!a:code] [\"/\"34x:account] | ?35x:location"),
     ("Field54D", "?[\"/\"1!a:code] [\"/\"34x:account] | 4*35x:line"),
     ("Field55D", "?[\"/\"1!a:code] [\"/\"34x:account] | 4*35x:line"),
     ("Field56D", "?[\"/\"1!a:code] [\"/\"34x:account] | 4*35x:line"),
